@@ -208,6 +208,33 @@ def run(chk):
             data = (lcg_bytes(seed, 65536) * (size // 65536 + 1))[:size]
             check_file("big%d.bin" % size, data, seed, False)
             stats["large_files"].append(size)
+    # a digest is TEXT also where it enters a filter or sort expression: contents whose CRC-32 consists of decimal digits only
+    import cli_driver
+    found = []
+    sd = rng.randrange(65536)
+    for k in range(4000):
+        data = lcg_bytes((sd + k) % 65536, 1 + k % 30)
+        hx = "%08x" % zlib.crc32(data)
+        if hx.isdigit() and hx[0] != "0":
+            found.append((data, hx))
+            if len(found) == 2:
+                break
+    for data, hx in found:
+        with Sandbox() as root:
+            d = os.path.join(root, "in")
+            os.mkdir(d)
+            with open(os.path.join(d, "dec.bin"), "wb") as fh:
+                fh.write(data)
+            with open(os.path.join(d, "other.bin"), "wb") as fh:
+                fh.write(data + b"!")
+            res = cli_driver.run_cli(["-ft", "%%Crc32() == '%s' and %%Md5() == '%s'" % (hx, hashlib.md5(data).hexdigest()), "--", "hit_%Name()", d],
+                                     root, root=root, snapshots=False, trace=False)
+            names = sorted(os.listdir(d))
+        chk.count(("crc-in-expression", hx))
+        stats["decimal_crc_in_expression"] = stats.get("decimal_crc_in_expression", 0) + 1
+        if res.status != 0 or names != ["hit_dec.bin", "other.bin"]:
+            chk.oracle_fail("a file whose CRC-32 is %s (decimal digits only) compared with that text in a filter expression: status %s, names %r" % (
+                hx, res.status, names), {"tag": "Crc32", "digest": hx, "length": len(data), "stderr": res.stderr[-200:]})
     chk.sample({"crc32_tag_case": tag_metas[0] if tag_metas else None})
     mism, errs = common.run_model_cases(["Tags.Hash", "Corr.HashCorr"], "tag_case", "tag_case_ok", tag_cases,
                                         shard_size=2, timeout=900)
